@@ -11,41 +11,68 @@ import (
 	"google.golang.org/protobuf/proto"
 )
 
-var VfHarnesses = map[string]func(){"VerifC11Arbitrary": VerifC11Arbitrary, "VerifC11RoundTrip": VerifC11RoundTrip}
+var VfHarnesses = map[string]func(){"VerifC11Arbitrary": VerifC11Arbitrary, "VerifC11RoundTrip": VerifC11RoundTrip, "VerifC11Mutated": VerifC11Mutated}
 
 type vfKeys struct {
-	id  string
-	key []byte
+	id, prevId   string
+	key, prevKey []byte
 }
 
 func (k vfKeys) X25519EncryptionKey() (string, []byte, error) { return k.id, k.key, nil }
 func (k vfKeys) PreviousX25519EncryptionKey() (string, []byte, error) {
-	return "", nil, errors.New("no previous key")
+	if k.prevKey == nil {
+		return "", nil, errors.New("no previous key")
+	}
+	return k.prevId, k.prevKey, nil
 }
 
-// C11 (crash freedom): an arbitrary envelope never makes DecryptMessage panic.
-// The AEAD dependency's Decrypt runs from its real SSA.
+// C11 (crash freedom): no envelope makes DecryptMessage panic or yield a plaintext: a well-formed envelope with an
+// arbitrary ciphertext of any length (the envelope itself is long enough whatever the ciphertext), garbage bytes,
+// an empty envelope. The AEAD dependency's Decrypt runs from its real SSA.
 func VerifC11Arbitrary() {
 	key := vf.Bytes("sharedkey", 32)
 	vf.Assume(len(key) == 32)
-	ct, _ := proto.Marshal(&wrapping.BlobInfo{Ciphertext: vf.Bytes("ciphertext", 40)})
-	err := DecryptMessage(context.Background(), ct, vfKeys{"kid", key}, new(wrapping.BlobInfo))
+	var ct []byte
+	switch vf.Int("envelope-kind", 0, 2) {
+	case 0:
+		ct, _ = proto.Marshal(&wrapping.BlobInfo{Ciphertext: vf.Bytes("ciphertext", 40), KeyInfo: &wrapping.KeyInfo{KeyId: "a-key-id-that-makes-the-envelope-long-enough"}})
+	case 1:
+		ct = vf.Garbage("garbage-envelope", 40)
+	default:
+		ct, _ = proto.Marshal(&wrapping.BlobInfo{Ciphertext: vf.Bytes("ciphertext", 40)})
+	}
+	var src X25519KeyProducer = vfKeys{id: "kid", key: key}
+	if vf.Bool("receiver-has-previous-key") {
+		src = vfKeys{id: "kid", key: key, prevId: vf.IfStr(vf.Bool("previous-key-has-the-same-id"), "kid", "old"), prevKey: vf.Bytes("previous-key", 32)}
+	}
+	err := DecryptMessage(context.Background(), ct, src, new(wrapping.BlobInfo))
 	vf.Assert("arbitrary-ciphertext-is-rejected", err != nil)
 	vf.Reach("returned")
 }
 
-// C11 (round trip / binding): decrypts iff same key and same key id.
+// C11 (binding): a message encrypted under (key, id) opens exactly under the same key and id - as the receiver's
+// current key or as the key it recorded as previous, whatever ID that previous key carries - and then yields the
+// original message.
 func VerifC11RoundTrip() {
-	k1 := vf.Bytes("key1", 32)
-	k2 := vf.Bytes("key2", 32)
+	k1 := vf.Bytes("sender-key", 32)
+	k2 := vf.Bytes("receiver-key", 32)
 	vf.Assume(vf.And(len(k1) == 32, len(k2) == 32))
-	id2 := vf.String("id2", 8)
+	id2 := vf.String("receiver-key-id", 8)
+	recv := vfKeys{id: id2, key: k2}
+	hasPrev := vf.Bool("receiver-has-previous-key")
+	if hasPrev {
+		recv.prevId, recv.prevKey = vf.String("previous-key-id", 8), vf.Bytes("previous-key", 32)
+		vf.Assume(len(recv.prevKey) == 32)
+	}
 	msg := &wrapping.BlobInfo{Ciphertext: vf.Bytes("payload", 16)}
-	ct, err := EncryptMessage(context.Background(), msg, vfKeys{"kid", k1})
+	ct, err := EncryptMessage(context.Background(), msg, vfKeys{id: "kid", key: k1})
 	vf.Assert("encrypt-ok", err == nil)
 	out := new(wrapping.BlobInfo)
-	err = DecryptMessage(context.Background(), ct, vfKeys{id2, k2}, out)
+	err = DecryptMessage(context.Background(), ct, recv, out)
 	same := vf.And(vf.EqBytes(k1, k2), id2 == "kid")
+	if hasPrev {
+		same = vf.Or(same, vf.And(vf.EqBytes(k1, recv.prevKey), recv.prevId == "kid"))
+	}
 	if err == nil {
 		vf.Reach("decrypted")
 		vf.Assert("only-with-same-key-and-id", same)
@@ -53,5 +80,48 @@ func VerifC11RoundTrip() {
 	} else {
 		vf.Reach("refused")
 		vf.Assert("refused-only-if-different", vf.Not(same))
+	}
+}
+
+// C11 (modified ciphertexts): an honest envelope whose ciphertext was truncated, extended or had a byte replaced
+// never opens (a different ciphertext value fails authentication) and never crashes.
+func VerifC11Mutated() {
+	key := vf.Bytes("sharedkey", 32)
+	vf.Assume(len(key) == 32)
+	src := vfKeys{id: "kid", key: key}
+	msg := &wrapping.BlobInfo{Ciphertext: vf.Bytes("payload", 16)}
+	ct, err := EncryptMessage(context.Background(), msg, src)
+	vf.Assert("encrypt-ok", err == nil)
+	blob := new(wrapping.BlobInfo)
+	vf.Assert("envelope-decodes", proto.Unmarshal(ct, blob) == nil)
+	orig := blob.Ciphertext
+	n := vf.Int("cut-at", 0, 60)
+	vf.Assume(n <= len(orig))
+	switch vf.Int("mutation", 0, 3) {
+	case 0: // truncated to any length, including below the nonce size
+		blob.Ciphertext = orig[:n]
+		vf.Assume(n < len(orig))
+	case 1: // extended
+		extra := vf.Bytes("extra", 4)
+		vf.Assume(len(extra) >= 1)
+		blob.Ciphertext = append(append([]byte{}, orig...), extra...)
+	case 2: // one byte replaced
+		vf.Assume(n < len(orig))
+		b := vf.Bytes("replacement", 1)
+		vf.Assume(vf.And(len(b) == 1, vf.Not(vf.EqBytes(b, orig[n:n+1]))))
+		blob.Ciphertext = append(append(append([]byte{}, orig[:n]...), b...), orig[n+1:]...)
+	default: // untouched: still opens
+	}
+	mutated, err := proto.Marshal(blob)
+	vf.Assert("re-encode-ok", err == nil)
+	out := new(wrapping.BlobInfo)
+	derr := DecryptMessage(context.Background(), mutated, src, out)
+	if derr == nil {
+		vf.Reach("opened")
+		vf.Assert("only-the-unmodified-ciphertext-opens", vf.EqBytes(blob.Ciphertext, orig))
+		vf.Assert("plaintext-intact", vf.EqBytes(out.Ciphertext, msg.Ciphertext))
+	} else {
+		vf.Reach("refused")
+		vf.Assert("unmodified-ciphertext-opens", vf.Not(vf.EqBytes(blob.Ciphertext, orig)))
 	}
 }
